@@ -76,6 +76,23 @@ func (d *driver) build(race bool) (string, error) {
 		out += "-race"
 		args = append(args, "-race")
 	}
+	if repoDir != "/repo" {
+		// build against another copy of the repository (seed / mutation tests
+		// work on scratch worktrees): same module file with the replace moved
+		mod, err := os.ReadFile(filepath.Join(verifDir, "harness", "go.mod"))
+		if err != nil {
+			return "", err
+		}
+		sum, _ := os.ReadFile(filepath.Join(verifDir, "harness", "go.sum"))
+		mf := filepath.Join(verifDir, ".build", fmt.Sprintf("go-%d.mod", os.Getpid()))
+		if err := os.WriteFile(mf, []byte(strings.Replace(string(mod), "=> /repo", "=> "+repoDir, 1)), 0644); err != nil {
+			return "", err
+		}
+		_ = os.WriteFile(strings.TrimSuffix(mf, ".mod")+".sum", sum, 0644)
+		defer os.Remove(mf)
+		defer os.Remove(strings.TrimSuffix(mf, ".mod") + ".sum")
+		args = append(args, "-modfile="+mf)
+	}
 	args = append(args, "-o", out, "./cmd/worker")
 	cmd := exec.Command("go", args...)
 	cmd.Dir = filepath.Join(verifDir, "harness")
